@@ -53,4 +53,46 @@ theorem fn_exists (fuel : Nat) (env : Env) (id : Nat) (q : List String) (a : Nod
   unfold decideFn
   simp only [String.reduceBEq, Bool.or_self, Bool.false_eq_true, if_false, if_true]
 
+/-- the position functions answer straight from the line's environment, and change nothing -/
+theorem fn_positions (fuel : Nat) (env : Env) (id : Nat) (q : List String) (s : ES) :
+    produceFn (fuel + 1) env id "line_number" q [] s = (.int env.idx, s) ∧
+    produceFn (fuel + 1) env id "count_lines" q [] s = (.int env.dataCount, s) ∧
+    produceFn (fuel + 1) env id "count_scans" q [] s = (.int env.scanCount, s) ∧
+    produceFn (fuel + 1) env id "count" q [] s = (.int (env.matchCount + 1), s) ∧
+    produceFn (fuel + 1) env id "total_lines" q [] s = (.int env.dataEndCount, s) := by
+  refine ⟨?_, ?_, ?_, ?_, ?_⟩ <;> (unfold produceFn; simp)
+
+
+/-- concat of two arguments that evaluate to strings is their concatenation, in the state the arguments leave -/
+theorem fn_concat (fuel : Nat) (env : Env) (id : Nat) (q : List String) (a b : Node) (x y : String) (s s1 s2 : ES)
+    (h1 : evalV fuel env a s = (.str x, s1)) (h2 : evalV fuel env b s1 = (.str y, s2)) :
+    produceFn (fuel + 1) env id "concat" q [a, b] s = (.str (x ++ y), s2) := by
+  unfold produceFn
+  simp [h1, h2, fmt, pyFormat, fmtScalar]
+
+theorem fn_length (fuel : Nat) (env : Env) (id : Nat) (q : List String) (a : Node) (x : String) (s s1 : ES)
+    (h1 : evalV fuel env a s = (.str x, s1)) :
+    produceFn (fuel + 1) env id "length" q [a] s = (.int x.length, s1) := by
+  unfold produceFn
+  by_cases h : x = "" <;> simp [h1, fmt, pyFormat, fmtScalar, truthy, h]
+
+theorem fn_strip (fuel : Nat) (env : Env) (id : Nat) (q : List String) (a : Node) (x : String) (s s1 : ES)
+    (h1 : evalV fuel env a s = (.str x, s1)) :
+    produceFn (fuel + 1) env id "strip" q [a] s = (.str (Model.PyStr.strip x), s1) := by
+  unfold produceFn
+  simp [h1, fmt, pyFormat, fmtScalar]
+
+theorem fn_starts_with (fuel : Nat) (env : Env) (id : Nat) (q : List String) (a b : Node) (x y : String) (s s1 s2 : ES)
+    (h1 : evalV fuel env a s = (.str x, s1)) (h2 : evalV fuel env b s1 = (.str y, s2)) :
+    produceFn (fuel + 1) env id "starts_with" q [a, b] s =
+      (.bool ((Model.PyStr.strip y).toList.isPrefixOf (Model.PyStr.strip x).toList), s2) := by
+  unfold produceFn
+  simp [h1, h2, fmt, pyFormat, fmtScalar]
+
+theorem fn_add (fuel : Nat) (env : Env) (id : Nat) (q : List String) (a b : Node) (x y : Int) (s s1 s2 : ES)
+    (h1 : evalV fuel env a s = (.int x, s1)) (h2 : evalV fuel env b s1 = (.int y, s2)) :
+    produceFn (fuel + 1) env id "add" q [a, b] s = (.flt (x + y), s2) := by
+  unfold produceFn
+  simp [h1, h2, pyFloat, isNone]
+
 end Proofs.Funcs
